@@ -25,6 +25,7 @@ static void gen_echelon(const GenCtx &ctx, Case &c, int viewpct) {
     n = (int)(vf_cfg_l3() / 3) + g::rng(-2000, 6000);
     if (g::coin(1, 2)) k = 0;
   }
+  if (r != "mzd_echelonize_naive" && r != "mzd_gauss_delayed") g::extreme_shape(ctx, m, n, 60);
   c.set("m", m).set("n", n).set("full", g::rng(0, 1));
   if (r == "mzd_echelonize_m4ri" || r == "_mzd_echelonize_m4ri") c.set("k", k);
   if (r == "_mzd_echelonize_m4ri") {
